@@ -233,9 +233,23 @@ def gen(r, tier):
             ops.append(gen_req(r, hostile=True))
         elif x < 0.68:
             ops.append(gen_req(r, hostile=False))
-        elif x < 0.78:
+        elif x < 0.74:
             f = r.choice(tree["files"])
             ops.append({"op": "fetch", "path": f[0].split("/"), "szx": r.randint(0, 7)})
+        elif x < 0.78:
+            # random access to one file: block after block, each request with a block size of its own (what two
+            # interleaved downloads with different sizes, or a client that changes its mind, look like)
+            f = r.choice([g for g in tree["files"] if g[1] >= 64] or tree["files"])
+            num, szx = r.choice([0, 0, 1, 2]), r.randint(0, 6)
+            for _k in range(r.randint(2, 5)):
+                ops.append(req(GET, f[0].split("/"), block2=[num, szx]))
+                y = r.random()
+                if y < 0.6:
+                    num, szx = num + 1, r.choice([s_ for s_ in range(0, 7) if s_ != szx])
+                elif y < 0.8:
+                    num = num + 1
+                else:
+                    num, szx = r.choice([0, 1, 2, 3]), r.randint(0, 6)
         elif x < 0.85:
             f = r.choice(tree["files"])
             ops.append({"op": "rfetch", "path": f[0].split("/"), "szx": r.randint(0, 6), "wait": r.chance(0.6)})
@@ -374,6 +388,14 @@ def corpus():
             for num in sorted({0, max(0, size // bs - 1), size // bs, size // bs + 1, size // bs + 2, 4095, 1048575}):
                 nums.append(req(GET, [f], block2=[num, szx]))
     add("block2-arbitrary-num", nums)
+    # consecutive block numbers with different block sizes (interleaved downloads / random access)
+    for f in ("big", "f1025"):
+        pairs = []
+        for s1 in range(0, 7):
+            for s2 in range(0, 7):
+                if s1 != s2:
+                    pairs += [req(GET, [f], block2=[0, s1]), req(GET, [f], block2=[1, s2])]
+        add("block2-consecutive-mixed-size-%s" % f, pairs)
     add("block2-on-listing", [req(GET, [], block2=[n, s]) for s in (0, 2, 6) for n in (0, 1, 2, 50)] +
         [req(GET, ["a", ""], block2=[0, 0]), req(GET, ["a", ""], block2=[1, 0])])
     # 7. create / read / conditional update / delete cycle
@@ -729,6 +751,13 @@ def execute(sim, scenario):
         def check_get(i, o, path, resp):
             """2.05 answers to GETs whose meaning is beyond doubt must carry the
             modelled content (files) / mention only entries of the tree (listings)."""
+            if resp is not None and resp["code"] >> 5 == 5 and path and is_plain(path) and target_of(path) is not None \
+                    and isinstance(model.get(target_of(path), "absent"), bytes) and not o.get("etag"):
+                # an existing regular file below the root, named plainly (the simulated file system injects no errors):
+                # a server error is not "the file's content"
+                violation("C19/existing-file-not-served", ident(i, o, response=rc.code_str(resp["code"]),
+                                                                 block2=o.get("block2"), file_size=len(model[target_of(path)])))
+                return
             if resp is None or resp["code"] != rc.CONTENT:
                 return
             if b"CANARY:" in resp["payload"]:
